@@ -47,7 +47,7 @@ def run_verus_leg(pid, conf, tier, seed, outdir):
     """returns list of dicts per (unit, config)"""
     jobs = []
     for unit, patterns in conf.get('verus', []):
-        for suffix, feats in P.UNIT_CONFIGS[unit]:
+        for suffix, feats in conf.get('verus_configs', {}).get(unit, P.UNIT_CONFIGS[unit]):
             jobs.append((unit, suffix, feats, patterns))
 
     def one(job):
@@ -207,11 +207,14 @@ def decide(pid, tier, seed):
     # ---- native bounded leg (executable contracts on the real code, exhaustive small scope)
     from .witness import run_witness
     wit = []
-    wfeats = [()] + ([('docs',)] if pid == 'C17' else [])
+    wfeats = [('json',)] if pid == 'C08' else [()] + ([('docs',)] if pid == 'C17' else [])
     for wf_ in wfeats:
         w = run_witness(pid, tier, outdir, wf_)
         if w:
             wit.append(w)
+    if pid == 'C15':
+        from .witness import run_witness15
+        wit.append(run_witness15(tier, outdir))
     deductive_undecided = bool(undecided)
     for w in wit:
         cmds.append(w['cmd'])
